@@ -1,5 +1,5 @@
 (* C04 — subsystem-change notifications are delivered exactly once and in order.  Statements only. *)
-From MPD Require Import Bytes Tables ParserModel BuilderModel ConnModel ConnProofs LoopModel LoopProofs LoopSpec LoopSpecProofs ServerModel DriverLoop LoopRefine LoopRefineProofs.
+From MPD Require Import Bytes Tables ParserModel BuilderModel ConnModel ConnProofs LoopModel LoopProofs LoopSpec LoopSpecProofs ServerModel DriverLoop LoopRefine LoopRefineProofs LoopCancel LoopCancelProofs.
 Open Scope N_scope.
 
 (* for EVERY schedule: the names delivered as events, followed by the names in replies still on
@@ -65,6 +65,13 @@ Theorem c04_exec_events : forall cf labs gls, in_fragment cf labs gls ->
                   ne ++ rest = s_reported (x_srv (fst (xrun (xinit cf) labs))).
 Proof. exact exec_events. Qed.
 
+(* callers giving up (x<id>) do not touch the event stream: label by label, the events of the run with cancellations are those of the
+   run in which every x<id> is replaced by a no-op — for every label list without h / a and with distinct request ids, faults
+   included (the cancellation theorem, Props/C01.v c01_cancel_erasure) *)
+Theorem c04_exec_cancel_events : forall cf ls, cancel_ok [] ls = true ->
+  map g_ev (snd (xrun (xinit cf) ls)) = map g_ev (snd (xrun (xinit cf) (map erase_label ls))).
+Proof. exact exec_cancel_ev. Qed.
+
 Print Assumptions c04_exactly_once.
 Print Assumptions c04_quiescent.
 Print Assumptions c04_every_changed_field.
@@ -72,3 +79,4 @@ Print Assumptions c04_no_invention.
 Print Assumptions c04_partial_reply_is_kept.
 Print Assumptions c04_all_delivered_eventually.
 Print Assumptions c04_exec_events.
+Print Assumptions c04_exec_cancel_events.
